@@ -14,7 +14,9 @@ RULE = ("(a) generated schemas using sectiontype extends (chains up to 3, key ty
         "digest and equal outcome on the C01 texts; (b) prefixes (schema / sectiontype / component level, absolute and relative, "
         "nested 3 deep) against absolute dotted names over generated datatype packages, and a generated family combining prefixes with "
         "extends (derived types written under another prefix than their base, chains) and component imports (components with their own prefix, "
-        "packages named relative to the prefix) against the expansion 'nearest enclosing prefix + name', types in place; (c) schema-level extends of 1..3 bases "
+        "packages named relative to the prefix; components that import components themselves, the package named relative to the importing "
+        "component's prefix - not its own package, not the schema's prefix -, reached through the component alone or also directly, decoy "
+        "components under every other reading of the name) against the expansion 'nearest enclosing prefix + name', types in place; (c) schema-level extends of 1..3 bases "
         "against the merged schema, directed and GENERATED: family schemas delivered as trees of documents joined by extends (1..3 bases per document, "
         "3 deep), every document stating or inheriting key type and datatype independently of each other, unsettled conflicts refused; (d) component imports once / repeated / diamond / mutually importing / self-importing against defining the types in place. "
         "non-trivial = composed schema with >= 1 derived or prefixed item; distinct by document")
@@ -275,7 +277,10 @@ def _pf_compare(ctx, root, doc):
     inl, _ = P.render_expanded(doc, inline_extends=True)
     forms = (("relative names replaced by nearest enclosing prefix + name, components in place", exp),
              ("the same with every extends written out", inl))
-    rep = {"composed": comp, "components": {"%s:%s" % (c.pkg, c.file): P.render_component(c) for _, c in doc.imports}}
+    rep = {"composed": comp, "components": {"%s:%s" % (c.pkg, c.file): P.render_component(c) for c in P.all_components(doc)}}
+    decoys = {"%s:%s" % (q, c.file): P.render_decoy(c) for c in P.all_components(doc) for q in c.decoys}
+    if decoys:
+        rep["decoy_components"] = decoys
     ra = _accepts(comp)
     for form, x in forms:
         rb = _accepts(x)
@@ -306,20 +311,20 @@ def _pf_compare(ctx, root, doc):
 def _pf_shrink(ctx, root, doc, kind):
     """greedy removal of keys, types nobody extends, repeated imports and emptied components while the same kind of difference remains"""
     def smaller(d):
-        owners = [c for _, c in d.imports] + [d]
+        owners = P.all_components(d) + [d]
         extended = {t.extends for o in owners for t in o.types if t.extends}
         for o in owners:
             for i, t in enumerate(o.types):
                 if t.name not in extended:
                     d2 = copy.deepcopy(d)
-                    o2 = ([c for _, c in d2.imports] + [d2])[owners.index(o)]
+                    o2 = (P.all_components(d2) + [d2])[owners.index(o)]
                     del o2.types[i]
                     d2.sects = [x for x in d2.sects if x[0] != t.name]
-                    d2.imports = [(w, c) for w, c in d2.imports if c.types]
+                    d2.imports = [(w, c) for w, c in d2.imports if c.types or c.imports]
                     yield d2
                 for j in range(len(t.keys)):
                     d2 = copy.deepcopy(d)
-                    o2 = ([c for _, c in d2.imports] + [d2])[owners.index(o)]
+                    o2 = (P.all_components(d2) + [d2])[owners.index(o)]
                     del o2.types[i].keys[j]
                     yield d2
         for i in range(len(d.keys)):
@@ -334,6 +339,12 @@ def _pf_shrink(ctx, root, doc, kind):
             if any(c2 is c for _, c2 in d.imports[:i]):
                 d2 = copy.deepcopy(d)
                 del d2.imports[i]
+                yield d2
+        # a component's own imports (a candidate that no longer reaches some component's types is refused by the comparison)
+        for k, o in enumerate(owners[:-1]):
+            for i in range(len(o.imports)):
+                d2 = copy.deepcopy(d)
+                del P.all_components(d2)[k].imports[i]
                 yield d2
     best, progress, budget = doc, True, 400
     while progress and budget > 0:
@@ -367,6 +378,22 @@ def _prefix_family(ctx, rng, root, have):
             ctx.count("prefix-family:%s" % k, v)
         docs.append(doc)
         model_docs.extend([P.render_composed(doc), P.render_expanded(doc)[0]])
+    # components that import components themselves, the package named absolutely or relative to the IMPORTING COMPONENT's
+    # prefix (mostly neither the schema's prefix nor the package the component was loaded from); the imported component is
+    # reached through the component alone or also directly from the schema; decoy components of the same file name sit in
+    # every other package the written name could be taken for.  Own stream: the documents above keep their draws.
+    import importlib
+    import random
+    rng2 = random.Random("C11/prefix-family-nested-imports/%s" % ctx.seed)
+    for i in range(400 if ctx.thorough() else 50):
+        g = P.Gen(rng2, have, i)
+        doc = g.gen_doc_nested(root)
+        P.write_components(root, doc)
+        for k, v in g.stats.items():
+            ctx.count("prefix-family:%s" % k, v)
+        docs.append(doc)
+        model_docs.extend([P.render_composed(doc), P.render_expanded(doc)[0]])
+    importlib.invalidate_caches()
     elabrun.compare(ctx, "prefix-family", model_docs)
     reported = set()
     for doc in docs:
